@@ -626,10 +626,17 @@ fn faults_and_random(ctx: &Ctx) {
             1 => Just((Upstream::Refused, None, false)),
             1 => Just((Upstream::AcceptClose, None, false)),
         ];
-        let strat = (small_req(), upstream, prop_oneof![Just(300u64), Just(1000)], prop_oneof![3 => Just(None), 1 => Just(Some("/*".to_string())), 1 => Just(Some("/api/*".to_string()))]).prop_map(|(mut req, (upstream, spec, cd), timeout_ms, via)| {
+        let strat = (small_req(), upstream, prop_oneof![Just(300u64), Just(1000)], prop_oneof![3 => Just(None), 1 => Just(Some("/*".to_string())), 1 => Just(Some("/api/*".to_string())), 1 => Just(Some("/api*".to_string()))], 0u8..4).prop_map(|(mut req, (upstream, spec, cd), timeout_ms, via, rep)| {
             if let Some(p) = &via {
-                if p == "/api/*" {
-                    req.path = format!("/api{}", req.path);
+                // the route prefix is stripped once, also when the path repeats it
+                match (p.as_str(), rep) {
+                    ("/api/*", 0) => req.path = format!("/api/api{}", req.path),
+                    ("/api/*", 1) => req.path = format!("/api//api{}", req.path),
+                    ("/api/*", _) => req.path = format!("/api{}", req.path),
+                    ("/api*", 0) => req.path = format!("/api/api{}", req.path),
+                    ("/api*", _) => req.path = format!("/api{}", req.path),
+                    ("/*", 0) => req.path = format!("//{}", req.path.trim_start_matches('/')),
+                    _ => {}
                 }
             }
             Case { req, upstream, timeout_ms, spec, close_delimited: cd, via_handler: via }
